@@ -115,12 +115,16 @@ func init() {
 				WFml     bool            `json:"wf_ml"`
 				Rendered string          `json:"rendered"`
 				Eval     json.RawMessage `json:"eval"`
+				ParseOK  *bool           `json:"parse_ok"`
 			}
 			if json.Unmarshal(real, &r) != nil || json.Unmarshal(drv, &d) != nil || d.Eval == nil {
 				return core.Disagree("malformed spec-oracle exchange")
 			}
 			if r.Rendered != d.Rendered {
 				return core.Disagree("Go render ≠ Lean render")
+			}
+			if d.WF && d.ParseOK != nil && !*d.ParseOK {
+				return core.Disagree("parse? is incomplete: the rendering of a WF AST is not accepted with the AST's meaning")
 			}
 			if !d.WF && !d.WFml {
 				return core.Skip("not well-formed")
@@ -277,7 +281,7 @@ func runC07(ctx *core.Ctx) {
 	var rec func(prefix string, n int)
 	rec = func(prefix string, n int) {
 		for _, env := range c07Envs {
-			ctx.Add("subst", substArgs{T: prefix, Env: env})
+			ctx.Add("substStr", substArgs{T: prefix, Env: env}) // model of the code + (when the string is in the grammar) the grammar
 		}
 		ctx.Count(fmt.Sprintf("exhaustive-len-%d", len(prefix)))
 		if n == 0 {
@@ -414,7 +418,7 @@ func runC07(ctx *core.Ctx) {
 		// (mostly-valid structured inputs: nested braces, greedy tails, operators inside arguments)
 		txt := renderSegs(ast)
 		ctx.Count("rendered-ast-string")
-		ctx.Add("subst", substArgs{T: txt, Env: env})
+		ctx.Add("substStr", substArgs{T: txt, Env: env})
 		if r := []rune(txt); len(r) > 0 {
 			pos := ctx.Rng.Intn(len(r) + 1)
 			var mut []rune
@@ -431,7 +435,7 @@ func runC07(ctx *core.Ctx) {
 				mut = append(append(append(mut, r[:end]...), r[pos:end]...), r[end:]...)
 			}
 			ctx.Count("perturbed-ast-string")
-			ctx.Add("subst", substArgs{T: string(mut), Env: env})
+			ctx.Add("substStr", substArgs{T: string(mut), Env: env})
 		}
 		if i%ctx.Pick(10, 40) == 0 {
 			// every n-th random AST is also pushed through the whole loader
@@ -443,4 +447,8 @@ func runC07(ctx *core.Ctx) {
 	runC07Mapping(ctx, rnd)
 	// 5. SubstituteWithOptions under concrete configurations vs the parametric model
 	runC07Opts(ctx, rnd)
+	// 6. the mapping the loader hands to Substitute at each of its call sites (include / extends / name / options)
+	runC07Sites(ctx, rnd)
+	ctx.Wait()
+	reportStrClasses(ctx)
 }
